@@ -224,6 +224,19 @@ Example trim_overlap : trim_end_matches [97; 97] (trim_start_matches [97; 97] [9
   trim_end_matches [97; 97] [97; 97; 97] = [97] /\ trim_start_matches [97; 97] [97; 97; 97] = [97].
 Proof. repeat split. Qed.
 
+(* line continuation in CRLF and LF sources *)
+Theorem continuation_skips_crlf : forall t,
+  escape (13 :: 10 :: t) = ESkip (skip_ws t) /\ escape (10 :: t) = ESkip (skip_ws t) /\
+  (forall ws c r, forallb (fun x => is_whitespace x && negb (x =? 10)) ws = true ->
+                  is_whitespace c && negb (c =? 10) = false -> skip_ws (ws ++ c :: r) = c :: r).
+Proof. exact continuation_skips_crlf_lemma. Qed.
+Print Assumptions continuation_skips_crlf.
+
+Example continuation_example :
+  enc_decode [102; 111; 111; 92; 13; 10; 32; 32; 9; 98; 97; 114] = [0; 102; 111; 111; 98; 97; 114] /\
+  enc_decode [102; 92; 10; 32; 98; 92; 110] = [0; 102; 98; 10].
+Proof. split; reflexivity. Qed.
+
 (* T6 format_width, arithmetic core: the number of fill copies added is exactly min_width - len as long
    as at most 2^24 fill characters are needed (every alignment) ... *)
 Theorem format_fill_count : forall al num w g, w - g <= 16777216 ->
